@@ -142,6 +142,15 @@ Theorem bib_ctx_wellformed : forall (text : str) (start pos : Z),
 Proof. exact Proofs.Errors.bib_ctx_wellformed. Qed.
 Print Assumptions bib_ctx_wellformed.
 
+(* F20 stated for the model as it is (not claimed by the property text, recorded): after an inner
+   `with capture()` block -- whatever the state before, also inside an enclosing block -- a problem
+   is never collected; it goes to normal reporting *)
+Theorem inner_capture_switches_outer_off : forall g c e,
+  let '(g1, _, _) := with_capture g c in
+  forall i, snd (report_error g1 e) <> RAppended i.
+Proof. exact Proofs.Errors.inner_capture_switches_outer_off. Qed.
+Print Assumptions inner_capture_switches_outer_off.
+
 (* ---- non-vacuity ---- *)
 Definition ex_aux : err :=
   mkErr 1 (s2l "illegal, another \bibstyle command") (FnStr (s2l "x.aux")) (SAux (Some 3%Z)) (CAux (Some (s2l "\bibstyle{b}"))).
